@@ -714,7 +714,11 @@ func (e *verifEnv) restart(op string, pres []*verifSnapshot) {
 	data := old.be.last
 	e.restarts++
 	c.Count("probe:restart")
-	c.Logf("RESTART #%d (%d checkpoints so far, %d bytes)", e.restarts, old.be.n, len(data))
+	// (neither the size nor the number of checkpoints is logged: task ids are
+	// handed out in map order inside auto-connect, so the JSON differs in
+	// length between executions of the same tape)
+	c.Add("checkpoints-written", int64(old.be.n))
+	c.Logf("RESTART #%d", e.restarts)
 	if c.Chance("restart.new-snapd-build", 1, 4) {
 		// as after a snapd refresh: the system key changes and all
 		// profiles are regenerated on startup
@@ -1029,16 +1033,16 @@ func (e *verifEnv) submit(label string, overlapping bool, withFault bool, step i
 		switch c.Draw("fault.kind", 8) {
 		case 3, 7:
 			plan.kind = verifFaultTask
-			plan.at = c.Draw("fault.task", 8)
+			plan.at = c.Draw("fault.task", 16)
 		case 4:
 			plan.kind = verifFaultHook
-			plan.at = c.Draw("fault.hook", 4)
+			plan.at = c.Draw("fault.hook", 8)
 		case 5:
 			plan.kind = verifFaultSetup
-			plan.at = c.Draw("fault.setup", 4)
+			plan.at = c.Draw("fault.setup", 6)
 		case 6:
 			plan.kind = verifFaultAbort
-			plan.at = c.Draw("fault.step", 16)
+			plan.at = c.Draw("fault.step", 32)
 		}
 	}
 	if !overlapping && c.Chance("restart.mid-change", 1, 8) {
@@ -1179,13 +1183,23 @@ func (e *verifEnv) evaluate(active []*verifChange) {
 	blamed := active[0]
 	setupFaultFired := false
 	for _, ch := range active {
-		if ch.plan.fired || (ch.failed() && !blamed.plan.fired && !blamed.failed()) {
-			if !blamed.plan.fired {
-				blamed = ch
-			}
-		}
 		if ch.plan.fired && ch.plan.kind == verifFaultSetup {
 			setupFaultFired = true
+		}
+	}
+	for _, pick := range []func(*verifChange) bool{
+		func(ch *verifChange) bool { return ch.plan.fired },
+		func(ch *verifChange) bool { return ch.failed() },
+	} {
+		found := false
+		for _, ch := range active {
+			if pick(ch) {
+				blamed, found = ch, true
+				break
+			}
+		}
+		if found {
+			break
 		}
 	}
 	for _, ch := range active {
